@@ -125,6 +125,22 @@ func (r *Run) loadKnown() {
 	}
 }
 
+// KnownSigs lists the signatures of this property's listed known findings.
+func (r *Run) KnownSigs() []string {
+	var l []string
+	for _, k := range r.knownList {
+		l = append(l, k.sig)
+	}
+	return l
+}
+
+// KnownHit counts n hits of a listed known finding (found by a worker process).
+func (r *Run) KnownHit(sig string, n int) {
+	r.mu.Lock()
+	r.knownHit[sig] += n
+	r.mu.Unlock()
+}
+
 // IsKnown reports whether a signature is listed as a known finding of this property.
 func (r *Run) IsKnown(sig string) bool {
 	for _, k := range r.knownList {
